@@ -89,6 +89,12 @@ CLAIMED = {
         text="The conversion is modelled at the level of named dimensions over tables regenerated from laspy (dimension order, packed sub-fields and their maxima). Theorems: names are unique in every format and X, Y, Z are always common; when conversion succeeds every dimension common to source and target holds the source's value and every other target dimension is zero (C12_common); it is refused exactly when some common dimension exceeds the target dimension's maximum - never truncated (C12_loud, an iff); the point count is kept and the extra bytes are carried unchanged; lost dimensions are exactly those absent from the target; with no explicit request the version is max(current, preferred) >= current, and every accepted result is a compatible pair with the requested format. The byte-level model (unpack by the generated layout, convert, pack) is compared with the real laspy.convert on all 121 pairs with random and in-range records, typed and scaled (64-bit, multi-element) extra dimensions, VLRs and EVLRs; purity of the source is checked by deep snapshots.",
         note="Trusted: translator tables; C02/C09 theorems tie named dimensions to bytes; deep copy of the header and VLR/EVLR carrying are checked by the oracle only (not modelled).",
         design="6 (C12)"),
+    "C13": dict(
+        engine="lasdata",
+        technique="Lean 4 proof of the extra-bytes descriptor round trip (192-byte layout over generated ctypes offsets, type table by kernel evaluation), payload round trip by induction, shape invariant and value preservation for add/remove; correspondence with real LasData histories on record bytes and VLR payload",
+        text="Theorems for every well-formed extra dimension (any of the 30 typed element types, scaled or not, or an opaque array of 4..255 bytes, names and descriptions up to the full 32 bytes): the descriptor laspy writes is 192 bytes and is read back as the same dimension (name, type, element count of an opaque array for every value of the options byte, scales, offsets, description), hence the extra-bytes VLR payload describes exactly the current dimensions in order (C13_payload); record length = standard part + sum of dimension sizes under the shape invariant; adding dimensions keeps every existing value and appends zero values, removing dimensions erases the same positions from the descriptors and from every record and keeps the invariant; removing a standard or unknown name is refused without a new state. The model (addDims/removeDims, descriptor, parseDescriptor) is compared with real add_extra_dim(s)/remove_extra_dim(s)/assignment/round-trip histories on every point format: full record bytes and the VLR payload after each history.",
+        note="Trusted: generated ctypes layout / type table / option masks; names and descriptions NUL-free ASCII; value copying inside laspy goes through numpy field assignment (checked by the oracle: every other dimension byte-equal after each step). Scaled 64-bit dimensions under add/remove rely on the C12 fix (D12).",
+        design="6 (C13)"),
 }
 NOT_YET = "check not built yet in this round (planned per DESIGN.md section 10); not claimed until its theorems build and its check is quiet"
 
